@@ -219,7 +219,11 @@ def run(tier: str) -> int:
         raise MachineryFailure(f'Hydraulics.tla violates {r["violated"]}')
     res.add_mc(r, cfg)
     replay_vectors(res, [p for p in r['prints'] if isinstance(p, dict) and 'L' in p])
-    out = sim.run_many(build_jobs(tier), 'harness.c15:project')
+    jobs_ = build_jobs(tier)
+    # each of a seeded choice of the jobs once more, followed in the same process by neighbours that restate ONE of its figures: a value
+    # kept from one run for the next (a memo keyed by too few arguments, a mutated default) shows in the neighbour's own trace
+    chains = sim.neighbour_chains(jobs_, 10 if tier == 'quick' else 60, 3, seed() * 101 + 15, prefer=('Production Flow Rate per Well', 'Production Well Diameter', 'Injection Well Diameter', 'Reservoir Impedance', 'Productivity Index', 'Injectivity Index', 'Reservoir Depth', 'Injection Temperature'))
+    out = sim.run_many(jobs_, 'harness.c15:project') + sim.run_chains(chains, 'harness.c15:project')
     counts = validate(res, out)
     for need in ('C15_nonneg', 'C15_prod_nonneg', 'C15_inj_nonneg', 'C15_sum', 'C15_floor', 'C15_monotone', 'C15_start', 'C15_rate',
                  'C15_inj_rate', 'C15_friction', 'index/pumped/overpressure', 'impedance/pumped'):
